@@ -87,7 +87,7 @@ mod vharness {
             _ => assert!(false, "C18:slice:string-slice-yields-a-string"),
         }
     }
-    //@harness props=C18,C01 strength=bounded bound="the string 'h\u00e9llo' (5 code points, 6 bytes), start / end null or any integer in -6..6, step null or 0..3" clause="s[a:b:c] on a string counts code points for every bound, negative ones included: the result is Python's slice of the code-point sequence" timeout=900 replay=slice_string
+    //@harness props=C18,C01 strength=bounded tier=thorough bound="the string 'h\u00e9llo' (5 code points, 6 bytes), start / end null or any integer in -6..6, step null or 0..3" clause="s[a:b:c] on a string counts code points for every bound, negative ones included: the result is Python's slice of the code-point sequence" timeout=900 replay=slice_string
     #[kani::proof]
     #[kani::unwind(10)]
     fn slice_string_hello() { slice_string("h\u{e9}llo", &['h', '\u{e9}', 'l', 'l', 'o']); }
@@ -117,6 +117,47 @@ mod vharness {
             _ => assert!(false, "C18:slice:substr-yields-a-string"),
         }
     }
+
+    /// ONE concrete slice of the 3-code-point string 'h e-acute EURO' (6 bytes): symbolic bounds make the
+    /// skip / take / step_by chain too slow for CBMC (7+ min even on a 2-code-point string: measured), so the quick
+    /// tier enumerates concrete (start, end) pairs, negative ones included; expected value = Python's slice
+    fn slice_case(start: Option<f64>, end: Option<f64>, want: &'static str) {
+        let mut ev = Evaluator { value_stack: Vec::with_capacity(1), _p: PhantomData };
+        let r = ev.do_slice_string("h\u{e9}\u{20ac}", start, end, None, None);
+        assert!(r.is_ok() && ev.value_stack.len() == 1, "C18,C01:slice:ok-only-for-valid-arguments");
+        match &ev.value_stack[0] {
+            ValueData::String(got) => { let (g, w) = (got.as_bytes(), want.as_bytes()); assert!(g.len() == w.len(), "C18:slice:string-slice-is-the-python-slice-on-code-points"); let mut j = 0; while j < g.len() && j < w.len() { assert!(g[j] == w[j], "C18:slice:string-slice-is-the-python-slice-on-code-points"); j += 1; } }
+            _ => assert!(false, "C18:slice:string-slice-yields-a-string"),
+        }
+    }
+    //@harness props=C18,C01 strength=bounded bound="ONE execution: ('h' e-acute EURO)[:-1]" clause="s[a:b] on a string counts code points, negative bounds included: this instance must give Python's slice" timeout=300 replay=slice_string
+    #[kani::proof]
+    #[kani::unwind(10)]
+    fn slice_case_none_m1() { slice_case(None, Some(-1.0), "h\u{e9}"); }
+    //@harness props=C18,C01 strength=bounded bound="ONE execution: ('h' e-acute EURO)[-1:]" clause="s[a:b] on a string counts code points, negative bounds included: this instance must give Python's slice" timeout=300 replay=slice_string
+    #[kani::proof]
+    #[kani::unwind(10)]
+    fn slice_case_m1_none() { slice_case(Some(-1.0), None, "\u{20ac}"); }
+    //@harness props=C18,C01 strength=bounded bound="ONE execution: ('h' e-acute EURO)[-2:]" clause="s[a:b] on a string counts code points, negative bounds included: this instance must give Python's slice" timeout=300 replay=slice_string
+    #[kani::proof]
+    #[kani::unwind(10)]
+    fn slice_case_m2_none() { slice_case(Some(-2.0), None, "\u{e9}\u{20ac}"); }
+    //@harness props=C18,C01 strength=bounded bound="ONE execution: ('h' e-acute EURO)[:-2]" clause="s[a:b] on a string counts code points, negative bounds included: this instance must give Python's slice" timeout=300 replay=slice_string
+    #[kani::proof]
+    #[kani::unwind(10)]
+    fn slice_case_none_m2() { slice_case(None, Some(-2.0), "h"); }
+    //@harness props=C18,C01 strength=bounded bound="ONE execution: ('h' e-acute EURO)[-2:-1]" clause="s[a:b] on a string counts code points, negative bounds included: this instance must give Python's slice" timeout=300 replay=slice_string
+    #[kani::proof]
+    #[kani::unwind(10)]
+    fn slice_case_m2_m1() { slice_case(Some(-2.0), Some(-1.0), "\u{e9}"); }
+    //@harness props=C18,C01 strength=bounded bound="ONE execution: ('h' e-acute EURO)[1:2]" clause="s[a:b] on a string counts code points, negative bounds included: this instance must give Python's slice" timeout=300 replay=slice_string
+    #[kani::proof]
+    #[kani::unwind(10)]
+    fn slice_case_p1_p2() { slice_case(Some(1.0), Some(2.0), "\u{e9}"); }
+    //@harness props=C18,C01 strength=bounded bound="ONE execution: ('h' e-acute EURO)[-3:9]" clause="s[a:b] on a string counts code points, negative bounds included: this instance must give Python's slice" timeout=300 replay=slice_string
+    #[kani::proof]
+    #[kani::unwind(10)]
+    fn slice_case_m3_p9() { slice_case(Some(-3.0), Some(9.0), "h\u{e9}\u{20ac}"); }
 
     //@harness props=C18,C01 strength=proof expect=fail clause="canary"
     #[kani::proof]
